@@ -31,10 +31,14 @@ let acct (s : string) : BinNums.coq_N =
 
 let join = function [] -> "-" | l -> String.concat "," l
 
-(* configuration: encoded lengths of the injected items which the model cannot derive *)
+(* configuration: encoded lengths of the injected items which the model cannot derive.
+   eci = the extended commit info item for a local last commit without votes, eci_votes = the one
+   carrying the signed votes of the default validator set (`prepare ... votes=1`), eci_empty = the
+   item holding the empty extended commit info that prepare_proposal falls back to *)
 let uch_aspen = ref (n_of_int 0)
 let uch_blackburn = ref (n_of_int 0)
 let eci_len = ref (n_of_int 0)
+let eci_votes = ref (n_of_int 0)
 let eci_empty = ref (n_of_int 0)
 
 type chain = {
@@ -54,13 +58,14 @@ type honest = {
   mutable h_accepted : bool option;
 }
 
-let env_at (c : chain) (h : int) : env =
+let env_at (c : chain) (h : int) (votes : bool) : env =
   let typed = c.aspen <> 0 && h >= c.aspen in
   let upgrade =
     if c.aspen <> 0 && h = c.aspen then Some (!uch_aspen, n_of_int h)
     else if c.blackburn <> 0 && h = c.blackburn then Some (!uch_blackburn, n_of_int h)
     else None in
-  let eci = if c.aspen <> 0 && h >= c.aspen + 2 then Some (!eci_len, !eci_empty) else None in
+  let eci = if c.aspen <> 0 && h >= c.aspen + 2
+            then Some ((if votes then !eci_votes else !eci_len), !eci_empty) else None in
   { e_typed = typed; e_upgrade = upgrade; e_eci = eci }
 
 let parse_action (toks : string list) : action =
@@ -127,6 +132,7 @@ let run ic oc =
         uch_aspen := n_of_string (kv r "uch_aspen");
         uch_blackburn := n_of_string (kv r "uch_blackburn");
         eci_len := n_of_string (kv r "eci");
+        eci_votes := n_of_string (kv r "eci_votes");
         eci_empty := n_of_string (kv r "eci_empty")
     | "case" :: _ ->
         chain := None; honest := None; queue := [];
@@ -206,13 +212,18 @@ let run ic oc =
         let c = get_chain () in
         honest := None;
         let mx = kv r "max" in
+        let (votes, votes_word) = match kv_opt r "votes" with
+          | None -> (false, "")
+          | Some "0" -> (false, " votes=0")
+          | Some "1" -> (true, " votes=1")
+          | Some v -> failwith ("bad votes " ^ v) in
         let h = c.height + 1 in
-        let e = env_at c h in
+        let e = env_at c h votes in
         let q = List.map (fun id -> Hashtbl.find txs id) !queue in
         (match lprepare e c.st q (z_of_string mx) with
          | Datatypes.Coq_inr err ->
-             pr "prepare err=%s height=%d max=%s\n"
-               (match err with PSize -> "size" | PItemSize -> "itemsize" | PGrow -> "exec") h mx
+             pr "prepare err=%s height=%d max=%s%s\n"
+               (match err with PSize -> "size" | PItemSize -> "itemsize" | PGrow -> "exec") h mx votes_word
          | Datatypes.Coq_inl p ->
              let incl = p.p_included in
              let nitems = List.length p.p_entries - List.length incl in
@@ -233,8 +244,8 @@ let run ic oc =
                  f.tx_body.b_signer = t.tx_body.b_signer
                  && ios f.tx_body.b_nonce <= ios t.tx_body.b_nonce) p.p_removed) !queue in
              let itemlens = List.map (fun x -> string_of_n (entry_len e.e_typed x)) items in
-             pr "prepare ok height=%d max=%s ids=%s bytes=%d nitems=%d itembytes=%d itemlens=%s codes=%s dry=%s removed=%s\n"
-               h mx (join (List.map label_tx incl)) bytes nitems itembytes (join itemlens)
+             pr "prepare ok height=%d max=%s%s ids=%s bytes=%d nitems=%d itembytes=%d itemlens=%s codes=%s dry=%s removed=%s\n"
+               h mx votes_word (join (List.map label_tx incl)) bytes nitems itembytes (join itemlens)
                (join (List.map (fun _ -> "0") incl)) (join dry) (join removed);
              honest := Some { h_height = h; h_env = e; h_items = items; h_txs = txl;
                               h_state = p.p_state; h_included = incl; h_accepted = None })
